@@ -48,6 +48,38 @@ def probe_boundary() -> Dict[str, Any]:
     return {"DeepList": all(dl), "DeepNs": all(dn), "mixed": (any(dl) != all(dl)) or (any(dn) != all(dn))}
 
 
+def probe_dict_state() -> Dict[str, Any]:
+    """[as implemented, census only] the facade over a DICT state - the type of state the engine itself uses: attribute lookup
+    reaches the dict's bound methods, so dict-style reads hand out the live containers and dict-style mutators go through"""
+    from clematis.engine.stages.state_clone import readonly_snapshot
+    live = {"graphs": {"g": [1]}, "version_etag": "0"}
+    v = readonly_snapshot(live)
+    facts: Dict[str, Any] = {}
+    try:
+        facts["get_hands_out_live_container"] = v.get("graphs") is live["graphs"]
+    except Exception as e:      # noqa: BLE001
+        facts["get_hands_out_live_container"] = f"raises {type(e).__name__}"
+    try:
+        v.graphs
+        facts["attribute_read_of_a_key"] = "ok"
+    except Exception as e:      # noqa: BLE001
+        facts["attribute_read_of_a_key"] = f"raises {type(e).__name__}"
+    try:
+        v["graphs"]
+        facts["item_read"] = "ok"
+    except Exception as e:      # noqa: BLE001
+        facts["item_read"] = f"raises {type(e).__name__}"
+    for name, fn in (("update", lambda: v.update({"x08": 1})), ("setdefault", lambda: v.setdefault("x08b", 1)), ("pop", lambda: v.pop("version_etag")),
+                     ("dunder_setitem", lambda: v.__setitem__("x08c", 1))):
+        before = dict(live)
+        try:
+            fn()
+            facts["mutator_" + name] = "accepted, live state changed" if dict(live) != before else "accepted, no change"
+        except Exception as e:      # noqa: BLE001
+            facts["mutator_" + name] = f"raises {type(e).__name__}"
+    return facts
+
+
 def replay_transition(t) -> Dict[str, Any]:
     from .x08_machine import Machine, norm_heap, strip
     fails: List[Tuple[str, str]] = []
@@ -74,7 +106,8 @@ def replay_transition(t) -> Dict[str, Any]:
             fails.append(("ReadsAgreeWithModel", f"{where}: {out.res} {out.exc} {out.msg}, spec {obs['res']} {obs['exc']}"))
     elif out.res == "raise" and out.exc != obs["exc"]:
         if frozen_target and out.exc in ("TypeError", "AttributeError"):
-            info["exc_class_drift"] = 1          # still a documented rejection; the class per spelling is "as implemented"
+            info["exc_class_drift"] = 1
+            info["drift:" + obs["node"] + "." + op["op"] + ":" + out.exc] = 1          # still a documented rejection; the class per spelling is "as implemented"
         else:
             fails.append(("ViewRejectsEveryStructuralMutation" if frozen_target else "ReadsAgreeWithModel",
                           f"{where}: raised {out.exc}: {out.msg}, spec {obs['exc']}"))
@@ -104,12 +137,17 @@ def replay_transition(t) -> Dict[str, Any]:
                 else:
                     clause = "ReadsAgreeWithModel"
                 fails.append((clause, f"{where}: view.{a} is {_fmt(g)}, spec {_fmt(w_)}" + (" (attribute already read before the live change)" if clause.startswith("ViewStructure") else "")))
+        nrefs, nfrozen = _count(list(want_view.values()))
+        info["refs_compared_by_identity"] = nrefs
+        info["frozen_nodes_read"] = nfrozen
+        if obs["res"] == "ok" and op["a"] in ("mlive", "mview") and any(_read_before(hist, a) for a in captured):
+            info["isolation_checked"] = 1
         for r_ in reads:
             clause = "FreezeIdempotent" if r_.startswith("FreezeIdempotent") else ("HashAndEqualitySemantics" if r_.startswith("HashAndEq") else "ReadsAgreeWithModel")
             fails.append((clause, f"{where}: {r_}"))
     if op["a"] == "mview" and obs["res"] == "ok" and obs["node"] != "leaf" and not fails:
         info["structural_write_through_view_accepted"] = 1
-    if frozen_target and not fails:
+    if frozen_target and out.res == "raise" and out.exc in ("TypeError", "AttributeError"):
         info["rejected_" + obs["node"]] = 1
     return {"fails": fails, "info": info}
 
@@ -118,6 +156,18 @@ def _read_before(hist, a) -> bool:
     """was attribute a read through the current view before this step (then its frozen value must not move any more)"""
     last_snap = max([i for i, o in enumerate(hist) if o["a"] == "snap"], default=-1)
     return any(o["a"] in ("read", "mview") and o["attr"] == a for o in hist[last_snap + 1:])
+
+
+def _count(fvs) -> Tuple[int, int]:
+    refs = frozen = 0
+    for fv in fvs:
+        if fv["t"] == "ref":
+            refs += 1
+        else:
+            frozen += 1
+            r2, f2 = _count([c["v"] for c in (fv["ch"] or [])])
+            refs, frozen = refs + r2, frozen + f2
+    return refs, frozen
 
 
 def _only_refs_differ(g, w_) -> bool:
@@ -185,16 +235,22 @@ def check(run) -> None:
         # one TLC run per world (independent state spaces); the deepest level for the two boundary worlds only
         plans = [(dict(consts, Worlds=[w], MaxLen=4, FreshKinds=["leaf", "map"]), f"ReadOnlyState_w{w}_len4") for w in (1, 2, 3, 4)] + \
                 [(dict(consts, Worlds=[w], MaxLen=5, FreshKinds=["leaf"], FullOps=False), f"ReadOnlyState_w{w}_len5") for w in (2, 3)]
-    for c, name in plans:
+    # one TLC worker per run: with several workers the search is not level by level, a state may first be met with a history
+    # of full length and is then never expanded (VIEW hides the history); the runs themselves go side by side
+    from concurrent.futures import ThreadPoolExecutor
+
+    def one(plan):
+        c, name = plan
         cfg = make_cfg(c, INVS, PROPS, emit=True, view="View_")
-        res = run.tlc("ReadOnlyState", cfg, name=name, workers=4 if q else 6, timeout_s=240 if q else 1500, heap="6g")
+        return run.tlc("ReadOnlyState", cfg, name=name, workers=1, timeout_s=300 if q else 1800, heap="3g")
+    with ThreadPoolExecutor(max_workers=2 if q else 4) as ex:
+        results = list(ex.map(one, plans))
+    for res in results:
         run.model_must_hold(res)
         if not res.emitted:
             from ..tlc import TLCError
             raise TLCError("ReadOnlyState emitted no transitions")
         ts += res.emitted
-    # the model must refute the other reading where it differs (non-vacuity of the boundary booleans): with everything
-    # frozen no structural write through the view can succeed, so the as-implemented runs must contain such writes
     heap0 = {}
     for t in ts:
         if not t["h"]:
@@ -224,7 +280,7 @@ def check(run) -> None:
         for clause, msg in out["fails"]:
             run.fail(clause, {"clause": clause, "family": "model", "step": t["obs"]["op"]["a"], "node": t["obs"]["node"]},
                      {"w": t["w"], "h": t["h"], "obs": t["obs"]}, msg, replay={"t": t})
-    if not census.get("rejected_fd") or not census.get("rejected_fl") or not census.get("rejected_ro"):
+    if not run.violations and (not census.get("rejected_fd") or not census.get("rejected_fl") or not census.get("rejected_ro")):
         from ..tlc import TLCError
         raise TLCError(f"vacuous: no rejected mutation attempt on some node kind {dict(census)}")
     run.sample({"transition": {k: v for k, v in cases[len(cases) // 2].items() if k != "heap0"}}, cap=1)
@@ -255,9 +311,24 @@ def check(run) -> None:
         for clause, msg in out["fails"]:
             run.fail(clause, {"clause": clause, "family": "usage", "variant": c["kind"]}, {k: v for k, v in c.items() if k != "workdir"}, msg,
                      replay={"usage": {k: v for k, v in c.items() if k != "workdir"}})
+    # ---- per-clause evaluation counts (how often each named clause was actually put to the test) ----
+    nrej = census.get("rejected_fd", 0) + census.get("rejected_fl", 0) + census.get("rejected_ro", 0)
+    for clause, n_ in (("ViewRejectsEveryStructuralMutation", nrej + census.get("random.rejected", 0)), ("FailedMutationChangesNothing", nrej),
+                       ("ViewStructureIsolatedFromLaterLiveStructuralChanges", census.get("isolation_checked", 0)),
+                       ("LeafIdentityPreserved", census.get("refs_compared_by_identity", 0)),
+                       ("ReadsAgreeWithModel", census.get("frozen_nodes_read", 0) + census.get("random.frozen_nodes", 0)),
+                       ("FreezeIdempotent", census.get("frozen_nodes_read", 0)), ("HashAndEqualitySemantics", census.get("frozen_nodes_read", 0)),
+                       ("ComputePhaseLeavesLiveStateAlone", 3)):
+        if n_ and not any(v["clause"] == clause for v in run.violations):
+            run.ok(clause, n_)
     # ---- what the code does beyond the promised boundary (census, not a verdict) ----
     run.extra["boundary_as_implemented"] = {"DeepList": b["DeepList"], "DeepNs": b["DeepNs"]}
     run.extra["census"] = dict(census)
+    ds = probe_dict_state()
+    run.extra["facade_over_dict_state_as_implemented"] = ds
+    if any(str(v_).startswith("accepted, live") for v_ in ds.values()) or ds.get("get_hands_out_live_container") is True:
+        run.notes.append(f"facade over a DICT state (the engine's own state type; parallel.py passes the dict through readonly_snapshot) as implemented: {ds} - "
+                         "the modelled guarantees hold for attribute-style state objects only")
     nacc = census.get("structural_write_through_view_accepted", 0)
     if nacc:
         run.notes.append(f"boundary as implemented (DeepList={b['DeepList']}, DeepNs={b['DeepNs']}): {nacc} replayed transitions are structural writes THROUGH the view "
